@@ -46,7 +46,19 @@ abbrev cGetProperty : Nat := 0x07
 abbrev cReceiveSbFile : Nat := 0x08
 abbrev cExecute : Nat := 0x09
 abbrev cCall : Nat := 0x0A
+abbrev cReset : Nat := 0x0B
 abbrev cSetProperty : Nat := 0x0C
+abbrev cFlashProgramOnce : Nat := 0x0E
+abbrev cFlashReadOnce : Nat := 0x0F
+abbrev cFlashReadResource : Nat := 0x10
+abbrev cKeyProvisioning : Nat := 0x15
+abbrev kpEnroll : Nat := 0
+abbrev kpSetUserKey : Nat := 1
+abbrev kpSetIntrinsicKey : Nat := 2
+abbrev kpWriteNonVolatile : Nat := 3
+abbrev kpReadNonVolatile : Nat := 4
+abbrev kpWriteKeyStore : Nat := 5
+abbrev kpReadKeyStore : Nat := 6
 abbrev cFlashEraseAllUnsecure : Nat := 0x0D
 abbrev cConfigureMemory : Nat := 0x11
 abbrev cReliableUpdate : Nat := 0x12
@@ -61,6 +73,8 @@ abbrev rTrustProv : Nat := 0xB6
 abbrev flagHasDataPhase : Nat := 1
 abbrev stSuccess : Nat := 0
 abbrev stFail : Nat := 1
+abbrev stSendingOperationConditionError : Nat := 1812
+abbrev stOtpVerifyFail : Nat := 52009
 abbrev stUnknownCommand : Nat := 10000
 abbrev stAbortDataPhase : Nat := 10002
 abbrev stNoResponse : Nat := 10004
@@ -197,6 +211,8 @@ structure Resp where
   cmdTag : Nat := 0
   length : Nat := 0
   values : List Nat := []
+  /-- `FlashReadOnceResponse.data` -/
+  data : Bytes := []
   deriving DecidableEq, Repr
 
 /-- exception classes of the host (`spsdk.mboot.exceptions`), error messages never modelled -/
@@ -246,8 +262,10 @@ def parseCmdResponse (data : Bytes) : Except HErr Resp :=
         else .ok { kind := .keyProv, tag, pc, status, length := fromLe ((raw.drop 4).take 4) }
       | .flashReadOnce =>
         if raw.length < 4 * pc ∨ pc < 2 then .error .other
-        else .ok { kind := .flashReadOnce, tag, pc, status, length := fromLe ((raw.drop 4).take 4),
-                   values := u32s (pc - 2) (raw.drop 8) }
+        else
+          let length := fromLe ((raw.drop 4).take 4)
+          .ok { kind := .flashReadOnce, tag, pc, status, length, values := u32s (pc - 2) (raw.drop 8),
+                data := if 0 < length then (raw.drop 8).take length else [] }
       | .trustProv =>
         if raw.length ≠ 4 * pc ∨ pc = 0 then .error .other
         else .ok { kind := .trustProv, tag, pc, status, values := u32s (pc - 1) (raw.drop 4) }
@@ -261,6 +279,11 @@ def readMemResp (status len : Nat) : Bytes :=
   [UInt8.ofNat Spec.rReadMemory, 0, 0, 2] ++ le 4 status ++ le 4 len
 def getPropResp (status : Nat) (vals : List Nat) : Bytes :=
   [UInt8.ofNat Spec.rGetProperty, 0, 0, UInt8.ofNat (1 + vals.length)] ++ le 4 status ++ vals.flatMap (le 4)
+/-- responses that announce a data phase of `len` bytes: `rtag` ∈ {ReadMemory, FlashReadResource, KeyProvisioning} -/
+def lenResp (rtag status len : Nat) : Bytes :=
+  [UInt8.ofNat rtag, 0, 0, 2] ++ le 4 status ++ le 4 len
+def readOnceResp (status len : Nat) (vals : List Nat) : Bytes :=
+  [UInt8.ofNat Spec.rFlashReadOnce, 0, 0, UInt8.ofNat (2 + vals.length)] ++ le 4 status ++ le 4 len ++ vals.flatMap (le 4)
 
 /-! ## data splitting -/
 
@@ -296,6 +319,23 @@ structure Dev where
   pingDummy : Nat := 0
   version : Nat := 0x50010300  -- protocol version word of the ping response (bugfix 0, minor 3, major 1, 'P')
   options : Nat := 0
+  /-- program-once (OTP) words: index ↦ 32-bit value; programming ORs bits in; locked indices silently keep their value -/
+  fuses : List (Nat × Nat) := []
+  lockedFuses : List Nat := []
+  /-- flash resource (IFR / firmware id) read by `flash_read_resource` -/
+  resource : Bytes := []
+  keyStore : Bytes := []
+  userKeys : List (Nat × Bytes) := []
+  /-- key provisioning data phase in flight: (operation, key type), bytes so far -/
+  kpTarget : Nat × Nat := (0, 0)
+  kpBuf : Bytes := []
+  /-- the ROM accepts data packets without a command (`load_image`) and collects them here -/
+  imageMode : Bool := false
+  image : Bytes := []
+  /-- forced abort of a host→device data phase: the (n+1)-th data packet of a phase is answered by ABORT -/
+  abortAfter : Option Nat := none
+  pktCount : Nat := 0
+  resets : Nat := 0
   deriving DecidableEq, Repr
 
 def splice (mem : Bytes) (a : Nat) (d : Bytes) : Bytes := mem.take a ++ d ++ mem.drop (a + d.length)
@@ -305,6 +345,11 @@ def fillBytes : Nat → Nat → Bytes
   | 0, _ => []
   | n + 1, pat => (le 4 pat ++ fillBytes n pat)
 def fillPattern (n pat : Nat) : Bytes := (fillBytes (n / 4 + 1) pat).take n
+
+/-- OTP programming: bits are ORed in; a locked word silently keeps its value -/
+def Dev.programFuse (d : Dev) (i v : Nat) : Dev :=
+  if d.lockedFuses.contains i then d
+  else { d with fuses := (i, (d.fuses.lookup i).getD 0 ||| v) :: d.fuses.filter (fun q => q.1 != i) }
 
 def faultAt (d : Dev) (final : Bool) : Option Nat :=
   (d.faults.find? (fun f => f.1 == d.ncmd && f.2.1 == final)).map (·.2.2)
@@ -316,7 +361,7 @@ inductive Outcome where
   | fromHost (d : Dev) (resp : Bytes) (addr len finalSt : Nat)
 
 def Dev.exec (d0 : Dev) (p : CmdPkt) : Outcome :=
-  let d := { d0 with ncmd := d0.ncmd + 1, phase := .idle }
+  let d := { d0 with ncmd := d0.ncmd + 1, phase := .idle, pktCount := 0 }
   let finalSt := (faultAt d0 true).getD Spec.stSuccess
   match faultAt d0 false with
   | some st => .single d (genericResp st p.tag)
@@ -370,7 +415,52 @@ def Dev.exec (d0 : Dev) (p : CmdPkt) : Outcome :=
     else if p.tag = Spec.cExecute ∨ p.tag = Spec.cCall ∨ p.tag = Spec.cFlashEraseAllUnsecure
          ∨ p.tag = Spec.cConfigureMemory ∨ p.tag = Spec.cReliableUpdate then
       .single { d with log := d.log ++ [(p.tag, p.params)] } (genericResp 0 p.tag)
+    else if p.tag = Spec.cReset then
+      .single { d with resets := d.resets + 1 } (genericResp 0 p.tag)
+    else if p.tag = Spec.cFlashReadResource then
+      match p.params with
+      | [a, n, _] =>
+        if a + n ≤ d.resource.length then
+          .toHost d (lenResp Spec.rFlashReadResource 0 n) ((d.resource.drop a).take n) finalSt
+        else .single d (genericResp Spec.stMemoryRangeInvalid p.tag)
+      | _ => .single d (genericResp Spec.stFail p.tag)
+    else if p.tag = Spec.cFlashReadOnce then
+      match p.params with
+      | [i, n] =>
+        if n = 4 then .single d (readOnceResp 0 4 [(d.fuses.lookup i).getD 0])
+        else if n = 8 then .single d (readOnceResp 0 8 [(d.fuses.lookup i).getD 0, (d.fuses.lookup (i + 1)).getD 0])
+        else .single d (genericResp Spec.stFail p.tag)
+      | _ => .single d (genericResp Spec.stFail p.tag)
+    else if p.tag = Spec.cFlashProgramOnce then
+      match p.params with
+      | [i, 4, v] => .single (d.programFuse i v) (genericResp 0 p.tag)
+      | [i, 8, v, w] => .single ((d.programFuse i v).programFuse (i + 1) w) (genericResp 0 p.tag)
+      | _ => .single d (genericResp Spec.stFail p.tag)
+    else if p.tag = Spec.cKeyProvisioning then
+      match p.params with
+      | [op] =>
+        if op = Spec.kpEnroll then .single { d with log := d.log ++ [(p.tag, p.params)] } (genericResp 0 p.tag)
+        else if op = Spec.kpReadKeyStore then
+          .toHost d (lenResp Spec.rKeyProv 0 d.keyStore.length) d.keyStore finalSt
+        else .single d (genericResp Spec.stFail p.tag)
+      | [op, _] =>
+        if op = Spec.kpWriteNonVolatile ∨ op = Spec.kpReadNonVolatile then
+          .single { d with log := d.log ++ [(p.tag, p.params)] } (genericResp 0 p.tag)
+        else .single d (genericResp Spec.stFail p.tag)
+      | [op, t, n] =>
+        if op = Spec.kpSetIntrinsicKey then .single { d with log := d.log ++ [(p.tag, p.params)] } (genericResp 0 p.tag)
+        else if op = Spec.kpSetUserKey ∨ op = Spec.kpWriteKeyStore then
+          .fromHost { d with kpTarget := (op, t), kpBuf := [] } (genericResp 0 p.tag) 0 n finalSt
+        else .single d (genericResp Spec.stFail p.tag)
+      | _ => .single d (genericResp Spec.stFail p.tag)
     else .single d (genericResp Spec.stUnknownCommand p.tag)
+
+/-- end of a host→device data phase: key provisioning data goes to its target -/
+def Dev.finishData (d : Dev) (tag : Nat) : Dev :=
+  if tag = Spec.cKeyProvisioning then
+    if d.kpTarget.1 = Spec.kpWriteKeyStore then { d with keyStore := d.kpBuf }
+    else { d with userKeys := (d.kpTarget.2, d.kpBuf) :: d.userKeys.filter (fun q => q.1 != d.kpTarget.2) }
+  else d
 
 /-- a data packet of the host→device data phase; `none` = refused (wrong size / no data phase) -/
 def Dev.acceptData (d : Dev) (p : Bytes) : Option (Dev × Option Bytes) :=
@@ -378,10 +468,23 @@ def Dev.acceptData (d : Dev) (p : Bytes) : Option (Dev × Option Bytes) :=
   | .recv tag addr rem fs =>
     if p.isEmpty ∨ d.maxPacket < p.length ∨ rem < p.length then none
     else
-      let d1 := if tag = Spec.cWriteMemory then { d with mem := splice d.mem addr p } else { d with sb := d.sb ++ p }
-      if rem = p.length then some ({ d1 with phase := .idle }, some (genericResp fs tag))
+      let d0 := { d with pktCount := d.pktCount + 1 }
+      let d1 := if tag = Spec.cWriteMemory then { d0 with mem := splice d.mem addr p }
+                else if tag = Spec.cKeyProvisioning then { d0 with kpBuf := d.kpBuf ++ p }
+                else { d0 with sb := d.sb ++ p }
+      if rem = p.length then some ({ d1.finishData tag with phase := .idle }, some (genericResp fs tag))
       else some ({ d1 with phase := .recv tag (addr + p.length) (rem - p.length) fs }, none)
   | _ => none
+
+/-- the forced abort of the data phase hits this packet -/
+def Dev.abortsNow (d : Dev) : Bool :=
+  match d.phase, d.abortAfter with
+  | .recv _ _ _ _, some k => d.pktCount == k
+  | _, _ => false
+
+/-- a data packet outside a data phase: collected in image mode, otherwise not accepted -/
+def Dev.strayData (d : Dev) (p : Bytes) : Option Dev :=
+  if d.imageMode ∧ d.phase = .idle ∧ ¬ p.isEmpty ∧ p.length ≤ d.maxPacket then some { d with image := d.image ++ p } else none
 
 def Dev.refuseData (d : Dev) : Dev × Bytes :=
   match d.phase with
@@ -410,10 +513,19 @@ def Dev.stepSerial (d : Dev) (w : Bytes) : Dev × Bytes :=
           | .fromHost d' r a n fs =>
             ({ d' with phase := if n = 0 then .send pkt.tag [] fs else .recv pkt.tag a n fs }, ackFrame ++ mkFrame Spec.fCmd r)
       else if t = Spec.fData then
-        match d.acceptData p with
-        | some (d', none) => (d', ackFrame)
-        | some (d', some fin) => (d', ackFrame ++ mkFrame Spec.fCmd fin)
-        | none => let (d', fin) := d.refuseData; (d', ackFrame ++ mkFrame Spec.fCmd fin)
+        if d.abortsNow then
+          let (d', fin) := d.refuseData; (d', abortFrame ++ mkFrame Spec.fCmd fin)
+        else
+          match d.acceptData p with
+          | some (d', none) => (d', ackFrame)
+          | some (d', some fin) => (d', ackFrame ++ mkFrame Spec.fCmd fin)
+          | none =>
+            match d.phase with
+            | .recv _ _ _ _ => let (d', fin) := d.refuseData; (d', ackFrame ++ mkFrame Spec.fCmd fin)
+            | _ =>
+              match d.strayData p with
+              | some d' => (d', ackFrame)
+              | none => (d, nakFrame)
       else (d, nakFrame)
     | _ => (d, nakFrame)
 
@@ -436,10 +548,19 @@ def Dev.stepHid (d : Dev) (w : Bytes) : Dev × List Bytes :=
           if n = 0 then (d', [rep Spec.ridCmdIn r, rep Spec.ridCmdIn (genericResp fs pkt.tag)])
           else ({ d' with phase := .recv pkt.tag a n fs }, [rep Spec.ridCmdIn r])
     else if rid = Spec.ridDataOut then
-      match d.acceptData p with
-      | some (d', none) => (d', [])
-      | some (d', some fin) => (d', [rep Spec.ridCmdIn fin])
-      | none => let (d', fin) := d.refuseData; (d', [rep Spec.ridCmdIn fin])
+      if d.abortsNow then
+        let (d', fin) := d.refuseData; (d', [rep Spec.ridCmdIn [], rep Spec.ridCmdIn fin])   -- zero length report = abort
+      else
+        match d.acceptData p with
+        | some (d', none) => (d', [])
+        | some (d', some fin) => (d', [rep Spec.ridCmdIn fin])
+        | none =>
+          match d.phase with
+          | .recv _ _ _ _ => let (d', fin) := d.refuseData; (d', [rep Spec.ridCmdIn fin])
+          | _ =>
+            match d.strayData p with
+            | some d' => (d', [])
+            | none => (d, [])
     else (d, [])
   | none => (d, [])
 
@@ -478,6 +599,8 @@ structure Host where
   relRev : List (List Bytes) := []
   peer : Peer := .none
   fuelHint : Nat := 0
+  /-- number of `device.read` calls made so far (the bounded-time clause counts them) -/
+  reads : Nat := 0
   deriving DecidableEq
 
 /-- `device.write(w)` -/
@@ -523,7 +646,8 @@ def devWrite (w : Bytes) : H Unit := modify (·.write w)
 /-! ### serial link -/
 
 /-- `device.read(n)` of the serial stub -/
-def devRead (n : Nat) : H Bytes := fun h =>
+def devRead (n : Nat) : H Bytes := fun h0 =>
+  let h := { h0 with reads := h0.reads + 1 }
   if n = 0 ∨ h.rxB.isEmpty then (.error .timeout, h)
   else if n ≤ h.rxB.length then (.ok (h.rxB.take n), { h with rxB := h.rxB.drop n })
   else if h.cfg.partialReads then (.ok h.rxB, { h with rxB := [] })
@@ -589,7 +713,8 @@ def serialSendFrame (t : Nat) (data : Bytes) : H Unit :=
 /-! ### HID link -/
 
 /-- `device.read(1024)` of the HID stub: the next report -/
-def hidDevRead : H Bytes := fun h =>
+def hidDevRead : H Bytes := fun h0 =>
+  let h := { h0 with reads := h0.reads + 1 }
   match h.rxR with
   | [] => (.error .timeout, h)
   | r :: rs => if r.isEmpty then (.error .timeout, { h with rxR := rs }) else (.ok r, { h with rxR := rs })
@@ -734,6 +859,19 @@ def sendData (chunks : List Bytes) : H Bool := do
       if h.cfg.cmdExc then fail (.cmd r.status) else pure false
     else pure (sent == total)
 
+/-- `_send_data(CommandTag.NO_COMMAND, chunks)` (`load_image`): no final response is expected -/
+def sendDataNoResp (chunks : List Bytes) : H Bool := do
+  requireOpen
+  let h ← get
+  let total := (chunks.map List.length).sum
+  let (sent, err) ← sendChunks h.eda chunks 0
+  match err with
+  | none => pure (sent == total)
+  | some e =>
+    if e = .timeout then do setStatus Spec.stNoResponse; fail .conn
+    else if e.isSpsdk then do setStatus Spec.stSendingOperationConditionError; pure (sent == total)
+    else fail e
+
 /-- `get_property(prop_tag, index)` -/
 def getProperty (tag index : Nat) : H (Option (List Nat)) := do
   let r ← processCmd ⟨Spec.cGetProperty, 0, [tag, index]⟩
@@ -783,6 +921,7 @@ inductive Val where
   | bool (b : Bool)
   | bytes (b : Bytes)
   | ints (l : List Nat)
+  | int (n : Nat)
   deriving DecidableEq, Repr
 
 /-- `read_memory(address, length, mem_id, fast_mode)` -/
@@ -827,6 +966,78 @@ def receiveSbFile (data : Bytes) (checkErrors : Bool) : H Val := do
     pure (.bool ok)
   else pure (.bool false)
 
+/-- API methods of the shape: `_split_data`; command with data phase flag; `_send_data` if the command succeeded -/
+def dataOutCmd (tag : Nat) (params : List Nat) (data : Bytes) : H Val := do
+  let chunks ← splitData data
+  let r ← processCmd ⟨tag, Spec.flagHasDataPhase, params⟩
+  if r.status = Spec.stSuccess then do
+    let ok ← sendData chunks
+    pure (.bool ok)
+  else pure (.bool false)
+
+/-- API methods of the shape: command; `assert isinstance(response, cls)`; `_read_data(tag, response.length)` -/
+def dataInCmd (tag : Nat) (params : List Nat) (kind : RKind) : H Val := do
+  let r ← processCmd ⟨tag, 0, params⟩
+  if r.status = Spec.stSuccess then
+    if r.kind = kind then do
+      let d ← readData tag r.length
+      pure (.bytes d)
+    else fail .other
+  else pure .none
+
+/-- `load_image(data)` -/
+def loadImage (data : Bytes) : H Val := do
+  let chunks ← splitData data
+  setStatus Spec.stSuccess
+  let ok ← sendDataNoResp chunks
+  pure (.bool ok)
+
+/-- `efuse_read_once(index)` -/
+def efuseReadOnce (index : Nat) : H (Option Nat) := do
+  let r ← processCmd ⟨Spec.cFlashReadOnce, 0, [index, 4]⟩
+  if r.status = Spec.stSuccess then
+    if r.kind = .flashReadOnce then
+      match r.values with
+      | v :: _ => pure (some v)
+      | [] => fail .other                      -- IndexError
+    else fail .other
+  else pure none
+
+/-- `efuse_program_once(index, value, verify)` -/
+def efuseProgramOnce (index value : Nat) (verify : Bool) : H Val := do
+  let r ← processCmd ⟨Spec.cFlashProgramOnce, 0, [index, 4, value]⟩
+  if r.status ≠ Spec.stSuccess then pure (.bool false)
+  else if verify then do
+    let rv ← efuseReadOnce (index % 16777216)
+    match rv with
+    | none => pure (.bool false)
+    | some x =>
+      if x &&& value = value then pure (.bool true)
+      else do setStatus Spec.stOtpVerifyFail; pure (.bool false)
+  else pure (.bool true)
+
+/-- `flash_read_once(index, count)` -/
+def flashReadOnce (index count : Nat) : H Val :=
+  if count ≠ 4 ∧ count ≠ 8 then fail .spsdk
+  else do
+    let r ← processCmd ⟨Spec.cFlashReadOnce, 0, [index, count]⟩
+    if r.status = Spec.stSuccess then
+      if r.kind = .flashReadOnce then pure (.bytes r.data) else fail .other
+    else pure .none
+
+/-- `CmdPacket(..., data=data)`: the data are appended as little-endian words (zero padded) -/
+def wordsOf : Bytes → List Nat
+  | [] => []
+  | a :: b :: c :: d :: r => fromLe [a, b, c, d] :: wordsOf r
+  | l => [fromLe l]
+
+/-- `flash_program_once(index, data)` -/
+def flashProgramOnce (index : Nat) (data : Bytes) : H Val :=
+  if data.length ≠ 4 ∧ data.length ≠ 8 then fail .spsdk
+  else do
+    let r ← processCmd ⟨Spec.cFlashProgramOnce, 0, [index, data.length] ++ wordsOf data⟩
+    pure (.bool (r.status = Spec.stSuccess))
+
 /-- every API method of the shape `return self._process_cmd(CmdPacket(tag, NONE, *args)).status == SUCCESS` -/
 def simpleCmd (tag : Nat) (params : List Nat) : H Val := do
   let r ← processCmd ⟨tag, 0, params⟩
@@ -864,6 +1075,25 @@ def openSerial : Nat → H Unit
       modify (fun h => { h with opened := false })
       if e = .timeout ∨ e = .conn then openSerial k else fail .conn)
 
+/-- `reset(reopen=…)` (the sleep before re-opening is not modelled) -/
+def reset (reopen : Bool) : H Val := do
+  let r ← processCmd ⟨Spec.cReset, 0, []⟩
+  modify (fun h => { h with opened := false })
+  let h ← get
+  let bad : Bool := r.status ≠ Spec.stNoResponse ∧ r.status ≠ Spec.stSuccess
+  if bad ∧ h.cfg.cmdExc then fail .conn                  -- "Reset command failed"
+  else do
+    if r.status = Spec.stNoResponse then setStatus Spec.stSuccess
+    if reopen then
+      match h.cfg.tr with
+      | .hid => do
+        modify (fun h => { h with opened := true })
+        pure (.bool (!bad))
+      | .serial =>
+        catch_ (do openSerial Spec.openAttempts; pure (.bool (!bad)))
+          (fun e => if e.isSpsdk then (if h.cfg.cmdExc then fail .conn else pure (.bool false)) else fail e)
+    else pure (.bool (!bad))
+
 inductive Op where
   | open_
   | getProperty (tag index : Nat)
@@ -879,6 +1109,20 @@ inductive Op where
   | readMemory (addr len memId : Nat) (fast : Bool)
   | writeMemory (addr : Nat) (data : Bytes) (memId : Nat)
   | receiveSbFile (data : Bytes) (checkErrors : Bool)
+  | loadImage (data : Bytes)
+  | flashReadOnce (index count : Nat)
+  | flashProgramOnce (index : Nat) (data : Bytes)
+  | efuseReadOnce (index : Nat)
+  | efuseProgramOnce (index value : Nat) (verify : Bool)
+  | flashReadResource (addr len option : Nat)
+  | kpEnroll
+  | kpSetIntrinsicKey (keyType keySize : Nat)
+  | kpWriteNonvolatile (memId : Nat)
+  | kpReadNonvolatile (memId : Nat)
+  | kpSetUserKey (keyType : Nat) (data : Bytes)
+  | kpWriteKeyStore (data : Bytes)
+  | kpReadKeyStore
+  | reset (reopen : Bool)
   deriving DecidableEq, Repr
 
 def runOp : Op → H Val
@@ -904,6 +1148,25 @@ def runOp : Op → H Val
   | .readMemory a n m f => readMemory a n m f
   | .writeMemory a d m => writeMemory a d m
   | .receiveSbFile d c => receiveSbFile d c
+  | .loadImage d => loadImage d
+  | .flashReadOnce i c => flashReadOnce i c
+  | .flashProgramOnce i d => flashProgramOnce i d
+  | .efuseReadOnce i => do
+    let v ← efuseReadOnce i
+    match v with
+    | some x => pure (.int x)
+    | none => pure .none
+  | .efuseProgramOnce i v c => efuseProgramOnce i v c
+  | .flashReadResource a n o =>
+    if n % 4 ≠ 0 then fail .mboot else dataInCmd Spec.cFlashReadResource [a, n, o] .flashReadResource
+  | .kpEnroll => simpleCmd Spec.cKeyProvisioning [Spec.kpEnroll]
+  | .kpSetIntrinsicKey t z => simpleCmd Spec.cKeyProvisioning [Spec.kpSetIntrinsicKey, t, z]
+  | .kpWriteNonvolatile m => simpleCmd Spec.cKeyProvisioning [Spec.kpWriteNonVolatile, m]
+  | .kpReadNonvolatile m => simpleCmd Spec.cKeyProvisioning [Spec.kpReadNonVolatile, m]
+  | .kpSetUserKey t d => dataOutCmd Spec.cKeyProvisioning [Spec.kpSetUserKey, t, d.length] d
+  | .kpWriteKeyStore d => dataOutCmd Spec.cKeyProvisioning [Spec.kpWriteKeyStore, 0, d.length] d
+  | .kpReadKeyStore => dataInCmd Spec.cKeyProvisioning [Spec.kpReadKeyStore] .keyProv
+  | .reset r => reset r
 
 /-- *Observable success* (DESIGN §6 C10): nothing raised, the value is not `None`/`False`, status is SUCCESS -/
 def succeeded (r : Except HErr Val) (h : Host) : Prop :=
@@ -935,46 +1198,111 @@ structure Dev.OK (d : Dev) : Prop where
   mem_lt : d.mem.length < 4294967296
   nofault : d.faults = []
   props_lt : ∀ q ∈ d.props, q.2 < 4294967296
+  fuses_lt : ∀ q ∈ d.fuses, q.2 < 4294967296
+  noabort : d.abortAfter = none
+  keystore_lt : d.keyStore.length < 4294967296
+
+/-- the device after a command it only records -/
+def Dev.logged (d : Dev) (tag : Nat) (params : List Nat) : Dev :=
+  { d with ncmd := d.ncmd + 1, pktCount := 0, log := d.log ++ [(tag, params)] }
 
 /-- result of an operation the device refused with status `st` -/
 def specFail (ce : Bool) (st : Nat) (v : Val) : Except HErr Val := if ce then .error (.cmd st) else .ok v
 
 /-- What the protocol defines as the effect of one operation on the device, its result and the status code
-    (no link faults; `ce` = cmd_exception).  `none`: operation not covered by the refinement theorem. -/
-def specOp (ce : Bool) (d : Dev) : Op → Option (Dev × Except HErr Val × Nat)
+    (no link faults; `ce` = cmd_exception, `usb` = the device object is a `UsbDevice`).
+    `none`: operation (or argument range) not covered by the refinement theorem.
+    Bookkeeping fields of the reference device (`ncmd`, `pktCount`, `kpTarget`, `kpBuf`) are part of the state. -/
+def specOp (ce usb : Bool) (d : Dev) : Op → Option (Dev × Except HErr Val × Nat)
   | .writeMemory a data _ =>
-    let d1 := { d with ncmd := d.ncmd + 1 }
-    if a + data.length ≤ d.mem.length then some ({ d1 with mem := splice d.mem a data }, .ok (.bool true), Spec.stSuccess)
+    let d1 := { d with ncmd := d.ncmd + 1, pktCount := 0 }
+    if a + data.length ≤ d.mem.length then
+      some ({ d1 with mem := splice d.mem a data, pktCount := (split d.maxPacket data).length }, .ok (.bool true), Spec.stSuccess)
     else some (d1, specFail ce Spec.stMemoryRangeInvalid (.bool false), Spec.stMemoryRangeInvalid)
-  | .readMemory a n _ _ =>
-    let d1 := { d with ncmd := d.ncmd + 1 }
-    if a + n ≤ d.mem.length then some (d1, .ok (.bytes ((d.mem.drop a).take n)), Spec.stSuccess)
-    else some (d1, specFail ce Spec.stMemoryRangeInvalid .none, Spec.stMemoryRangeInvalid)
+  | .readMemory a n _ fast =>
+    if usb ∧ fast = false then
+      -- USB-HID workaround: one READ_MEMORY command per max-packet-size chunk
+      if 0 < n ∧ a + n ≤ d.mem.length then
+        some ({ d with ncmd := d.ncmd + (n / d.maxPacket + (if n % d.maxPacket ≠ 0 then 1 else 0)), pktCount := 0 },
+              .ok (.bytes ((d.mem.drop a).take n)), Spec.stSuccess)
+      else none
+    else
+      let d1 := { d with ncmd := d.ncmd + 1, pktCount := 0 }
+      if a + n ≤ d.mem.length then some (d1, .ok (.bytes ((d.mem.drop a).take n)), Spec.stSuccess)
+      else some (d1, specFail ce Spec.stMemoryRangeInvalid .none, Spec.stMemoryRangeInvalid)
   | .receiveSbFile data _ =>
-    some ({ d with ncmd := d.ncmd + 1, sb := data }, .ok (.bool true), Spec.stSuccess)
+    some ({ d with ncmd := d.ncmd + 1, sb := data, pktCount := (split d.maxPacket data).length }, .ok (.bool true), Spec.stSuccess)
   | .fillMemory a n pat =>
-    let d1 := { d with ncmd := d.ncmd + 1 }
+    let d1 := { d with ncmd := d.ncmd + 1, pktCount := 0 }
     if a + n ≤ d.mem.length then some ({ d1 with mem := splice d.mem a (fillPattern n pat) }, .ok (.bool true), Spec.stSuccess)
     else some (d1, specFail ce Spec.stMemoryRangeInvalid (.bool false), Spec.stMemoryRangeInvalid)
   | .eraseRegion a n _ =>
-    let d1 := { d with ncmd := d.ncmd + 1 }
+    let d1 := { d with ncmd := d.ncmd + 1, pktCount := 0 }
     if a + n ≤ d.mem.length then some ({ d1 with mem := splice d.mem a (List.replicate n 0xFF) }, .ok (.bool true), Spec.stSuccess)
     else some (d1, specFail ce Spec.stMemoryRangeInvalid (.bool false), Spec.stMemoryRangeInvalid)
   | .eraseAll _ =>
-    some ({ d with ncmd := d.ncmd + 1, mem := List.replicate d.mem.length 0xFF }, .ok (.bool true), Spec.stSuccess)
+    some ({ d with ncmd := d.ncmd + 1, pktCount := 0, mem := List.replicate d.mem.length 0xFF }, .ok (.bool true), Spec.stSuccess)
   | .getProperty t _ =>
-    let d1 := { d with ncmd := d.ncmd + 1 }
+    let d1 := { d with ncmd := d.ncmd + 1, pktCount := 0 }
     if t = Spec.propMaxPacketSize then some (d1, .ok (.ints [d.maxPacket]), Spec.stSuccess)
     else match d.props.lookup t with
       | some v => some (d1, .ok (.ints [v]), Spec.stSuccess)
       | none => some (d1, specFail ce Spec.stUnknownProperty .none, Spec.stUnknownProperty)
   | .setProperty t v =>
-    let d1 := { d with ncmd := d.ncmd + 1 }
+    let d1 := { d with ncmd := d.ncmd + 1, pktCount := 0 }
     if d.rwProps.contains t then
       some ({ d1 with props := (t, v) :: d.props.filter (fun q => q.1 != t) }, .ok (.bool true), Spec.stSuccess)
     else if (d.props.lookup t).isSome ∨ t = Spec.propMaxPacketSize then
       some (d1, specFail ce Spec.stReadOnlyProperty (.bool false), Spec.stReadOnlyProperty)
     else some (d1, specFail ce Spec.stUnknownProperty (.bool false), Spec.stUnknownProperty)
+  -- commands the reference device only records
+  | .execute a g sp => some (d.logged Spec.cExecute [a, g, sp], .ok (.bool true), Spec.stSuccess)
+  | .call a g => some (d.logged Spec.cCall [a, g], .ok (.bool true), Spec.stSuccess)
+  | .eraseAllUnsecure => some (d.logged Spec.cFlashEraseAllUnsecure [], .ok (.bool true), Spec.stSuccess)
+  | .configureMemory a m => some (d.logged Spec.cConfigureMemory [m, a], .ok (.bool true), Spec.stSuccess)
+  | .reliableUpdate a => some (d.logged Spec.cReliableUpdate [a], .ok (.bool true), Spec.stSuccess)
+  | .kpEnroll => some (d.logged Spec.cKeyProvisioning [Spec.kpEnroll], .ok (.bool true), Spec.stSuccess)
+  | .kpSetIntrinsicKey t z => some (d.logged Spec.cKeyProvisioning [Spec.kpSetIntrinsicKey, t, z], .ok (.bool true), Spec.stSuccess)
+  | .kpWriteNonvolatile m => some (d.logged Spec.cKeyProvisioning [Spec.kpWriteNonVolatile, m], .ok (.bool true), Spec.stSuccess)
+  | .kpReadNonvolatile m => some (d.logged Spec.cKeyProvisioning [Spec.kpReadNonVolatile, m], .ok (.bool true), Spec.stSuccess)
+  -- key provisioning with data phases
+  | .kpSetUserKey t data =>
+    some ({ d with ncmd := d.ncmd + 1, pktCount := (split d.maxPacket data).length, kpTarget := (Spec.kpSetUserKey, t), kpBuf := data,
+                   userKeys := (t, data) :: d.userKeys.filter (fun q => q.1 != t) }, .ok (.bool true), Spec.stSuccess)
+  | .kpWriteKeyStore data =>
+    some ({ d with ncmd := d.ncmd + 1, pktCount := (split d.maxPacket data).length, kpTarget := (Spec.kpWriteKeyStore, 0), kpBuf := data,
+                   keyStore := data }, .ok (.bool true), Spec.stSuccess)
+  | .kpReadKeyStore =>
+    some ({ d with ncmd := d.ncmd + 1, pktCount := 0 }, .ok (.bytes d.keyStore), Spec.stSuccess)
+  | .flashReadResource a n _ =>
+    let d1 := { d with ncmd := d.ncmd + 1, pktCount := 0 }
+    if n % 4 ≠ 0 then none
+    else if a + n ≤ d.resource.length then some (d1, .ok (.bytes ((d.resource.drop a).take n)), Spec.stSuccess)
+    else some (d1, specFail ce Spec.stMemoryRangeInvalid .none, Spec.stMemoryRangeInvalid)
+  -- program-once words
+  | .efuseReadOnce i =>
+    some ({ d with ncmd := d.ncmd + 1, pktCount := 0 }, .ok (.int ((d.fuses.lookup i).getD 0)), Spec.stSuccess)
+  | .flashReadOnce i c =>
+    let d1 := { d with ncmd := d.ncmd + 1, pktCount := 0 }
+    if c = 4 then some (d1, .ok (.bytes (le 4 ((d.fuses.lookup i).getD 0))), Spec.stSuccess)
+    else if c = 8 then
+      some (d1, .ok (.bytes (le 4 ((d.fuses.lookup i).getD 0) ++ le 4 ((d.fuses.lookup (i + 1)).getD 0))), Spec.stSuccess)
+    else none
+  | .flashProgramOnce i data =>
+    match data with
+    | [a, b, c, e] =>
+      some ({ (d.programFuse i (fromLe [a, b, c, e])) with ncmd := d.ncmd + 1, pktCount := 0 }, .ok (.bool true), Spec.stSuccess)
+    | _ => none
+  | .efuseProgramOnce i v verify =>
+    let d1 := d.programFuse i v
+    if verify then
+      let x := (d1.fuses.lookup (i % 16777216)).getD 0
+      if x &&& v = v then some ({ d1 with ncmd := d.ncmd + 2, pktCount := 0 }, .ok (.bool true), Spec.stSuccess)
+      else some ({ d1 with ncmd := d.ncmd + 2, pktCount := 0 }, .ok (.bool false), Spec.stOtpVerifyFail)
+    else some ({ d1 with ncmd := d.ncmd + 1, pktCount := 0 }, .ok (.bool true), Spec.stSuccess)
+  -- boot image without a command (the ROM collects data packets)
+  | .loadImage data =>
+    if d.imageMode then some ({ d with image := d.image ++ data }, .ok (.bool true), Spec.stSuccess) else none
   | _ => none
 
 /-- arguments fit the 32-bit words of a command packet -/
@@ -987,6 +1315,20 @@ def Op.argsOK : Op → Prop
   | .eraseAll m => m < 4294967296
   | .getProperty t i => t < 4294967296 ∧ i < 4294967296
   | .setProperty t v => t < 4294967296 ∧ v < 4294967296
+  | .execute a g sp => a < 4294967296 ∧ g < 4294967296 ∧ sp < 4294967296
+  | .call a g => a < 4294967296 ∧ g < 4294967296
+  | .configureMemory a m => a < 4294967296 ∧ m < 4294967296
+  | .reliableUpdate a => a < 4294967296
+  | .kpSetIntrinsicKey t z => t < 4294967296 ∧ z < 4294967296
+  | .kpWriteNonvolatile m => m < 4294967296
+  | .kpReadNonvolatile m => m < 4294967296
+  | .kpSetUserKey t data => t < 4294967296 ∧ data.length < 4294967296
+  | .kpWriteKeyStore data => data.length < 4294967296
+  | .flashReadResource a n o => a < 4294967296 ∧ n < 4294967296 ∧ o < 4294967296
+  | .efuseReadOnce i => i < 4294967296
+  | .flashReadOnce i _ => i < 4294967296
+  | .flashProgramOnce i _ => i < 4294967296
+  | .efuseProgramOnce i v _ => i < 4294967296 ∧ v < 4294967296
   | _ => True
 
 end SpsdkVerif.Mboot
